@@ -107,6 +107,11 @@ def plan(tier, seed):
             if kind in ('growth_none', 'curvature_fail'):
                 # fault on the growth evaluation that follows a change of the size-class grid (extension / re-mesh)
                 scheds += [{'type': 'after_grid_change', 'which': w, 'small_grid': True} for w in (1, 2, 3, 'all')]
+            if kind in ('growth_none', 'curvature_fail', 'df_none'):
+                # the same faults on a non-isothermal base run (other incubation path), incl. failures from the very first call
+                # (added after seeded change C03-c: NaN incubation time when the impingement rate is 0 in a non-isothermal run)
+                scheds += [{'type': 'burst', 'start': 1, 'len': 3, 'noniso': True}, {'type': 'single', 'k': 1, 'noniso': True},
+                           {'type': 'periodic', 'period': 2, 'phase': 1, 'noniso': True}, {'type': 'burst', 'start': 1, 'len': 40, 'noniso': True}]
             B = 6 if tier == 'quick' else 8
             for b in range(0, len(scheds), B):
                 cases.append({'kind': 'fault', 'system': system, 'fault': kind, 'schedules': scheds[b:b + B],
@@ -183,6 +188,10 @@ def run_case(case, R):
     nfired = 0
     for s in case['schedules']:
         cfg = base_cfg(case['system'])
+        if s.get('noniso'):
+            T0 = cfg['schedule']['T']
+            dur = sum(cfg['segments'])
+            cfg['schedule'] = {'kind': 'array', 'hours': [0.0, dur / 3600.0], 'temps': [T0, T0 + (25.0 if case['system'] != 'alzr' else 8.0)]}
         if s.get('small_grid'):
             cfg['pbm'] = {'cMin': 1e-10, 'cMax': 2.5e-9, 'bins': 40, 'minBins': 30, 'maxBins': 60, 'adaptive': True}
         state = {'fired': 0}
